@@ -113,6 +113,15 @@ where
             }
             // ---- (b) understated degree bounds
             let mut bounds: Vec<usize> = vec![bound.saturating_sub(1), bound / 2, (geo.d / 2).saturating_sub(1), (geo.d / geo.folding).saturating_sub(1), bound.saturating_sub(8), 1, 0];
+            // bounds in the same power-of-two bracket whose (bound + 1) is still divisible by
+            // folding^layers: no truncation error, same domain - only the remainder degree check
+            // can reject them
+            let f_all = geo.folding.pow(geo.num_layers() as u32);
+            for j in 1..=3 {
+                if geo.d > j * f_all && geo.d - j * f_all > geo.d / 2 {
+                    bounds.push(geo.d - j * f_all - 1);
+                }
+            }
             bounds.retain(|b| *b < bound);
             bounds.sort_unstable();
             bounds.dedup();
@@ -170,7 +179,7 @@ where
 
 pub fn run(args: &Args) {
     let mut rep = Report::new("C09", "c09",
-        "per case one random realisable FRI geometry x 12 field/extension/hasher instantiations x 1..255 drawn queries: (a) random functions and polynomials of degree bound+1..4*bound+3 with uniform coefficients through the honest prover must be rejected; (b) every understated bound in {bound-1, bound-8, bound/2, (bound+1)/2-1, (bound+1)/folding-1, 1, 0} must be rejected; (c) substitutions into honest proofs at every layer: value changed, rows swapped, row crafted to keep its fold at alpha (validated: accepted when only the layer commitment check is skipped), remainder coefficient changed, remainder crafted to agree on all queried points, remainder with leading zeros trimmed (validated likewise); (d) changed / swapped / dropped / extra commitments, changed claimed evaluation; evaluation = one verification of forged data; distinct = (instantiation, geometry, queries)");
+        "per case one random realisable FRI geometry x 12 field/extension/hasher instantiations x 1..255 drawn queries: (a) random functions and polynomials of degree bound+1..4*bound+3 with uniform coefficients through the honest prover must be rejected; (b) every understated bound in {bound-1, bound-8, bound/2, (bound+1)/2-1, (bound+1)/folding-1, 1, 0, bound - j*folding^layers for j = 1..3 (same domain, no truncation)} must be rejected; (c) substitutions into honest proofs at every layer: value changed, rows swapped, row crafted to keep its fold at alpha (validated: accepted when only the layer commitment check is skipped), remainder coefficient changed, remainder crafted to agree on all queried points, remainder with leading zeros trimmed (validated likewise); (d) changed / swapped / dropped / extra commitments, changed claimed evaluation; evaluation = one verification of forged data; distinct = (instantiation, geometry, queries)");
     let seed = args.seed();
     let max_log_d = args.u64("maxlogd", if args.thorough() { 12 } else { 9 }) as u32;
     let mut w = Worker::new(args, 500);
